@@ -1,0 +1,1 @@
+//! verif-hooks: lex area (read-only accessors; see mod.rs)
